@@ -3,7 +3,7 @@
       flag is on (the behaviour of the pinned tree) and true with all flags off;
     - for the open findings (faithful behaviour kept in the model), a history showing the failure;
     - non-vacuity examples: reachable, non-trivial runs on which the predicates hold. *)
-From BX Require Import Base.Prelude Base.Sha256 Model.JsonAcct Model.Merkle Model.StateLedger Model.LedgerSpec.
+From BX Require Import Base.Prelude Base.Sha256 Model.JsonAcct Model.Merkle Model.StateLedger Model.LedgerSpec Proofs.LedgerLemmas Proofs.RootProofs.
 Local Open Scope N_scope.
 
 (** a small concrete environment: three accounts, SHA-256, a stand-in for Keccak *)
@@ -116,6 +116,31 @@ Definition h_touch_a : list op := [SetBal 0 5; Flush; Commit 1; SetSt 0 ka v1; F
 Definition h_touch_b : list op := [SetBal 0 5; Flush; Commit 1; SetBal 0 5; SetSt 0 ka v1; Flush; Commit 2].
 Lemma root_touched_refuted : roots_check (flush_recs cfg_fixed [h_touch_a; h_touch_b]) = 3.
 Proof. vm_compute. reflexivity. Qed.
+
+(** C10: key and value are concatenated without length prefixes: deleting the empty key contributes
+    no byte (a block with and without that deletion has the same root), and different change sets
+    with the same concatenation share a root (delete "ab" vs set "a" = "b") *)
+Definition kb : bytes := [98].
+Definition h_kv_base : list op := [SetSt 0 [] (Some [120]); SetSt 0 ka v1; Flush; Commit 1].
+Definition h_kv_a : list op := h_kv_base ++ [SetSt 0 ka v2; Flush; Commit 2].
+Definition h_kv_b : list op := h_kv_base ++ [SetSt 0 ka v2; SetSt 0 [] None; Flush; Commit 2].
+Definition h_kv_base2 : list op := [SetSt 0 kab (Some [120]); SetSt 0 ka (Some [121]); Flush; Commit 1].
+Definition h_kv_c : list op := h_kv_base2 ++ [SetSt 0 kab None; Flush; Commit 2].
+Definition h_kv_d : list op := h_kv_base2 ++ [SetSt 0 ka (Some kb); Flush; Commit 2].
+Lemma kv_concat_refuted :
+  roots_check (flush_recs cfg_fixed [h_kv_a; h_kv_b]) = 4 /\ roots_check (flush_recs cfg_fixed [h_kv_c; h_kv_d]) = 4.
+Proof. split; vm_compute; reflexivity. Qed.
+
+(** C10 non-vacuity: the same change set written in two orders, once straight and once after a
+    reopen with prior reads *)
+Definition h_perm_base : list op := [SetSt 0 ka v1; SetBal 1 5; Flush; Commit 1].
+Definition h_perm_a : list op := h_perm_base ++ [SetSt 0 ka v2; SetSt 1 kab w1; SetBal 1 7; SetSt 0 kab v1].
+Definition h_perm_b : list op :=
+  h_perm_base ++ [Reopen; GetSt 0 ka; GetBal 1; SetSt 0 kab v1; SetBal 1 7; SetSt 0 ka w1; SetSt 1 kab w1; SetSt 0 ka v2].
+Lemma perm_canon_example :
+  canon E0 (fst (run E0 cfg_fixed st0 h_perm_a)) = canon E0 (fst (run E0 cfg_fixed st0 h_perm_b)) /\
+  List.length (canon E0 (fst (run E0 cfg_fixed st0 h_perm_a))) = 2%nat.
+Proof. split; vm_compute; reflexivity. Qed.
 
 (** C13: SetCode(nil) on an account that has code: GetCode keeps returning the old code in the
     block, nil from the cache afterwards, the old code again after a reopen *)
